@@ -430,6 +430,8 @@ func c20Cfgs(full bool) []c20Cfg {
 			cs = append(cs, c20Cfg{V: v, Interval: iv, Universe: true})
 			cs = append(cs, c20Cfg{V: v, Interval: iv, Universe: true, Map: "1,."})
 			cs = append(cs, c20Cfg{V: v, Interval: iv, Universe: true, Map: "1:2,Equity"})
+			// a rule that collapses only SOME members of a group onto the group's own node
+			cs = append(cs, c20Cfg{V: v, Interval: iv, Map: "1,AAPL"}, c20Cfg{V: v, Interval: iv, Universe: true, Map: "1,USD"})
 			if !full && iv == ref.Monthly {
 				cs = append(cs, c20Cfg{V: v, Interval: iv, Last: 1}, c20Cfg{V: v, Interval: iv, ComRx: "AAPL|USD"})
 			}
@@ -521,7 +523,8 @@ func c20Run(e *core.Env) {
 	}
 	// position life histories (see positionChains): portfolios that become empty and are funded again
 	chainN := core.Pick(e, 4, 5)
-	chainCfgs := []c20Cfg{{V: "CHF", Interval: ref.Daily}, {V: "USD", Interval: ref.Daily}, {V: "CHF", Interval: ref.Weekly}, {V: "CHF", Interval: ref.Daily, ComRx: "AAPL"}, {V: "USD", Interval: ref.Daily, AccRx: "Portfolio"}, {V: "CHF", Interval: ref.Daily, Last: 2}}
+	chainCfgs := []c20Cfg{{V: "CHF", Interval: ref.Daily}, {V: "USD", Interval: ref.Daily}, {V: "CHF", Interval: ref.Weekly}, {V: "CHF", Interval: ref.Daily, ComRx: "AAPL"}, {V: "USD", Interval: ref.Daily, AccRx: "Portfolio"}, {V: "CHF", Interval: ref.Daily, Last: 2},
+		{V: "CHF", Interval: ref.Daily, Map: "1,AAPL"}, {V: "USD", Interval: ref.Daily, Universe: true, Map: "1,USD"}, {V: "CHF", Interval: ref.Weekly, Universe: true, Map: "2,AAPL"}}
 	e.Note("position chains: 7 step kinds, <= %d steps on consecutive days, %d configurations x {weights, returns}", chainN, len(chainCfgs))
 	positionChains(e, chainN, func(seq []jr.Dir) { evalSeq(seq, chainCfgs) })
 	e.SetBound("position_chain_steps", chainN)
